@@ -74,7 +74,7 @@ theorem splitLast_eq {α : Type} (ms : List α) : ∀ (init : List α) (l : α),
       simp [this]
 
 theorem exec_shell (root : List Str) (c : Ctx) (ms : List Mut) (p : ShellPart) (w : World) :
-    (exec root c ms p w).shell = parentOwn root c ms p := by
+    (exec root c ms p w).shell = parentOwn root c ms p w := by
   cases c
   case pl =>
     simp only [exec, execWith, parentOwn, prepare]
@@ -84,6 +84,7 @@ theorem exec_shell (root : List Str) (c : Ctx) (ms : List Mut) (p : ShellPart) (
       obtain ⟨init, l⟩ := q
       simp only [runStages_shell]
       split <;> simp [leak_id]
+  case bgw s f => simp [exec, execWith, parentOwn, prepare, leak_id]; rfl
   all_goals simp [exec, execWith, parentOwn, leak_id, runStages_shell]
 
 theorem exec_world (root : List Str) (c : Ctx) (ms : List Mut) (p : ShellPart) (w : World)
@@ -102,12 +103,18 @@ theorem exec_world (root : List Str) (c : Ctx) (ms : List Mut) (p : ShellPart) (
       split
       · simp [stepWorld_id l w hl]
       · exact runMuts_world root [l] _ (fun x hx => by simp at hx; subst hx; exact hl)
+  case bgw s f => simp [exec, execWith, bgwRun, runMuts_world root ms _ h]
   all_goals simp [exec, execWith, childRun, runMuts_world root ms _ h, runStages_world root ms _ _ h]
+
+theorem waitResult_flow (s : Sync) (jobs : List JobResult) : (waitResult s jobs).flow = Flow.normal := by
+  cases s <;> rfl
 
 /-- no subshell context abandons the parent's line; a stage that ends in a Rust `Err` fails alone -/
 theorem exec_aborted (root : List Str) (c : Ctx) (ms : List Mut) (p : ShellPart) (w : World)
-    (hc : c ≠ .pl) : (exec root c ms p w).aborted = false := by
-  cases c <;> simp_all [exec, execWith, waitResult]
+    (hc : c.parentActs = false) : (exec root c ms p w).aborted = false := by
+  cases c
+  case bgw s f => cases f <;> simp_all [exec, execWith, bgwWait, waitResult_flow, ownErrexit, Ctx.parentActs]
+  all_goals simp_all [exec, execWith, Ctx.parentActs]
 
 /-- in `m1 | … | { mk; }` the line is abandoned only by an `exit` that the parent itself runs -/
 theorem pl_aborted (root : List Str) (init : List Mut) (l : Mut) (p : ShellPart) (w : World) :
@@ -118,16 +125,16 @@ theorem pl_aborted (root : List Str) (init : List Mut) (l : Mut) (p : ShellPart)
 
 theorem exec_eq (root : List Str) (c : Ctx) (ms : List Mut) (p : ShellPart) (w : World)
     (hw : ∀ m ∈ ms, m.touchesWorld = false)
-    (he : c = .pl → (exec root c ms p w).aborted = false) :
+    (he : c.parentActs = true → (exec root c ms p w).aborted = false) :
     exec root c ms p w =
-      { shell := parentOwn root c ms p, world := w, status := (exec root c ms p w).status,
+      { shell := parentOwn root c ms p w, world := w, status := (exec root c ms p w).status,
         out := (exec root c ms p w).out, aborted := false } := by
   have h1 := exec_shell root c ms p w
   have h2 := exec_world root c ms p w hw
   have h3 : (exec root c ms p w).aborted = false := by
-    by_cases hc : c = .pl
-    · exact he hc
-    · exact exec_aborted root c ms p w hc
+    cases hc : c.parentActs with
+    | true => exact he hc
+    | false => exact exec_aborted root c ms p w hc
   cases hx : exec root c ms p w with
   | mk sh wo st ou ab =>
     rw [hx] at h1 h2 h3
@@ -140,11 +147,18 @@ theorem exec_stages (root : List Str) (ms : List Mut) (p : ShellPart) (w : World
     (exec root .stages ms p w).out = [] ∧ (exec root .stages ms p w).aborted = false := by
   simp [exec, execWith, prepare, runStages_shell]
 
-/-- a background job collected by any `wait`: the parent keeps its value, gets status 0, goes on -/
+/-- a background job collected by any `wait`: the parent gets the status `wait` computes and no
+control-flow request; only its own `set -e` may then stop it (errexit left on), otherwise its value
+is untouched and it goes on -/
 theorem exec_bgw (root : List Str) (s : Sync) (f : Frame) (ms : List Mut) (p : ShellPart) (w : World) :
-    (exec root (.bgw s f) ms p w).shell = p ∧ (exec root (.bgw s f) ms p w).status = 0 ∧
-    (exec root (.bgw s f) ms p w).aborted = false := by
-  simp [exec, execWith, prepare, leak_id, waitResult]
+    (exec root (.bgw s f) ms p w).status = (bgwWait fresh root s f ms p w).status ∧
+    (exec root (.bgw s f) ms p w).aborted = ownErrexit f (bgwWait fresh root s f ms p w) ∧
+    (exec root (.bgw s f) ms p w).shell =
+      (if ownErrexit f (bgwWait fresh root s f ms p w) then frameShell root f p else p) := by
+  simp [exec, execWith, prepare, leak_id, bgwWait, waitResult_flow]; rfl
+
+theorem ownErrexit_other (f : Frame) (wr : JobResult) (hf : f ≠ .errexit) : ownErrexit f wr = false := by
+  cases f <;> simp_all [ownErrexit]
 
 /-! ### pipelines whose last command is a mutator -/
 
